@@ -345,7 +345,11 @@ func (s *Session) EnableStreamManagement(o *Config) {
 			// TODO: Store error in SMState, for later inspection
 			s.SMState = SMState{StreamErrorGroup: p.StreamErrorGroup}
 			s.SMState.UnAckQueue = q
-			s.err = errors.New("failed to establish session : " + s.SMState.StreamErrorGroup.GroupErrorName())
+			reason := "no error condition given"
+			if p.StreamErrorGroup != nil {
+				reason = p.StreamErrorGroup.GroupErrorName()
+			}
+			s.err = errors.New("failed to establish session : " + reason)
 		default:
 			s.err = errors.New("unexpected reply to SM enable")
 		}
